@@ -6,6 +6,9 @@ import (
 	"encoding/json"
 	"fmt"
 	"io"
+	"os"
+	"path/filepath"
+	"sort"
 	"strings"
 
 	"golang.org/x/crypto/openpgp"
@@ -37,6 +40,7 @@ func (c11) Batches(tier string, seed uint64) []core.Batch {
 	b = append(b, spread("edit", 16, tierN(tier, 2, 20))...)
 	b = append(b, spread("splice", 2, tierN(tier, 10, 100))...)
 	b = append(b, spread("keyring", 2, tierN(tier, 10, 100))...)
+	b = append(b, spread("corpus", 4, 0)...) // the archive's own clearsigned InRelease files and keyrings, if installed
 	return b
 }
 
@@ -270,6 +274,41 @@ func region(doc []byte, off int) string {
 func (p c11) RunBatch(t *core.T, b core.Batch) {
 	keys := testKeys(tierN(t.Tier, 1024, 2048))
 	switch b.Name {
+	case "corpus":
+		// realistic workload: InRelease files fetched by apt (signed by several archive keys at once, some of them
+		// absent from any one keyring) against the keyrings of the debian-archive-keyring package
+		files, _ := filepath.Glob("/var/lib/apt/lists/*InRelease")
+		rings, _ := filepath.Glob("/usr/share/keyrings/debian-archive-*.gpg")
+		sort.Strings(files)
+		sort.Strings(rings)
+		if len(files) == 0 || len(rings) == 0 {
+			t.Cover("corpus:unavailable")
+			return
+		}
+		r := t.Rand("corpus", fmt.Sprint(b.Arg))
+		for fi := b.Arg; fi < len(files); fi += 4 {
+			doc, err := os.ReadFile(files[fi])
+			if err != nil || len(doc) > 1<<20 {
+				continue
+			}
+			for ri, ring := range rings {
+				if t.Quick() && ri%3 != fi%3 {
+					continue
+				}
+				kr, err := os.ReadFile(ring)
+				if err != nil {
+					continue
+				}
+				p.emit(t, c11Case{Input: doc, Keyring: kr, Fault: "none"}, "corpus:InRelease-x-archive-keyring")
+				// a few edits of the real document under the same keyring
+				for k := 0; k < tierN(t.Tier, 3, 12); k++ {
+					nb := append([]byte{}, doc...)
+					off := r.Intn(len(nb))
+					nb[off] ^= byte(1 << uint(r.Intn(7)))
+					p.emit(t, c11Case{Input: nb, Keyring: kr, Fault: fmt.Sprintf("corpus-edit@%d", off)}, "corpus:edited")
+				}
+			}
+		}
 	case "edit":
 		for dn := 0; dn < b.N; dn++ {
 			r := t.Rand("edit-doc", fmt.Sprint(dn)) // same documents in all 16 batches; each takes a stripe of the offsets
